@@ -119,10 +119,20 @@ RatCeil(x)   == LET dm == BgDivMod(x.num.m, x.den) IN
 MaxInt == 2147483647
 ProdFits(a, d) == d = 0 \/ a <= MaxInt \div d
 Sgn(v) == IF v < 0 THEN -1 ELSE IF v > 0 THEN 1 ELSE 0
+(* without products: compare integer parts, then the reciprocals of the fractional parts (Euclid) *)
+RECURSIVE EuclidCmp(_, _, _, _)
+EuclidCmp(a, b, c, d) ==
+    LET qa == a \div b  qc == c \div d IN
+    IF qa # qc THEN Sgn(qa - qc)
+    ELSE LET ra == a % b  rc == c % d IN
+         IF ra = 0 /\ rc = 0 THEN 0
+         ELSE IF ra = 0 THEN -1
+         ELSE IF rc = 0 THEN 1
+         ELSE EuclidCmp(d, rc, b, ra)            \* ra/b ? rc/d  <=>  d/rc ? b/ra
 NatRatCmp(a, b, c, d) ==
     IF b = d THEN Sgn(a - c)
     ELSE IF ProdFits(a, d) /\ ProdFits(c, b) THEN Sgn(a*d - c*b)
-    ELSE BgCmp(BgMul(BgNat(a), BgNat(d)), BgMul(BgNat(c), BgNat(b)))
+    ELSE EuclidCmp(a, b, c, d)
 
 RECURSIVE IsPow2(_)
 IsPow2(n) == n = 1 \/ (n > 1 /\ n % 2 = 0 /\ IsPow2(n \div 2))
@@ -173,22 +183,28 @@ PtCmp(x, y) ==
 (*     1e6) of the output log2, or -1 when not recorded; has12: columns cn1/cn2 exist; m1/m2: *)
 (*     cn1/cn2 missing (NaN); bafo = round(baf column * 1e6) or -1 when missing / no column.  *)
 (*   (rows and outputs travel as flat tuples -- TLC loads those several times faster than     *)
-(*   JSON objects; RowAt / OutAt give them field names)                                       *)
+(*   JSON objects)                                                                            *)
 (* A record produced by splitting a batched call holds one row; nin/nout are the batch's.     *)
-RowAt(r, k) == LET w == r.rows[k] IN
-    [pfx |-> w[1], base |-> w[2], s |-> w[3], e |-> w[4], q |-> [n |-> w[5], d |-> w[6], t |-> w[7]],
-     nan |-> w[8], n |-> w[9], baf |-> [n |-> w[10], d |-> w[11]]]
-OutAt(r, k) == LET o == r.out[k] IN
-    [cn |-> [neg |-> o[1], m |-> o[2]], cnint |-> o[3], o6 |-> o[4], has12 |-> o[5], c1 |-> o[6], c2 |-> o[7],
-     m1 |-> o[8], m2 |-> o[9], bafo |-> o[10]]
+(* Decode gives the tuples field names, once per record (`<<>> \o f` makes TLC evaluate the    *)
+(* function once, to a concrete sequence, instead of at every application).                   *)
+RowRec(w) == [pfx |-> w[1], base |-> w[2], s |-> w[3], e |-> w[4], q |-> [n |-> w[5], d |-> w[6], t |-> w[7]],
+              nan |-> w[8], n |-> w[9], baf |-> [n |-> w[10], d |-> w[11]]]
+OutRec(o) == [cn |-> [neg |-> o[1], m |-> o[2]], cnint |-> o[3], o6 |-> o[4], has12 |-> o[5], c1 |-> o[6],
+              c2 |-> o[7], m1 |-> o[8], m2 |-> o[9], bafo |-> o[10]]
 UPts(T) == [i \in 1..Len(T) |-> [n |-> T[i][1], d |-> T[i][2], t |-> T[i][3]]]
-Thr(r) == UPts(r.U)
+Decode(t) == [t EXCEPT !.rows = <<>> \o [k \in 1..Len(t.rows) |-> RowRec(t.rows[k])],
+                       !.out  = <<>> \o [k \in 1..Len(t.out) |-> OutRec(t.out[k])],
+                       !.U    = <<>> \o UPts(t.U)]
+(* everything below works on decoded records *)
+RowAt(r, k) == r.rows[k]
+OutAt(r, k) == r.out[k]
+Thr(r) == r.U
 ClonalOps == {"clonal_mix", "clonal_mix_cli", "clonal_pure", "clonal_any"}
 MixOps == {"clonal_mix", "clonal_mix_cli"}
 Rows(r) == 1..Len(r.rows)
 Aligned(r) == r.err = "" /\ Len(r.out) = Len(r.rows)
+HasRows(r) == Aligned(r) /\ r.nout = r.nin
 NoErr(r) == r.err = ""
-PurityGiven(r) == r.pn > 0
 PurityPath(r)  == r.pn > 0 /\ r.pn < r.pd              \* do_call: `if purity and purity < 1.0`
 
 (* P-layer view of a row *)
@@ -328,12 +344,12 @@ PThrRef(r, k) == RefCopies(PClassG(r, k, "none"), r.ploidy, r.hapx)
 Cn(r, k) == ZNorm(OutAt(r, k).cn)
 
 Clauses(op) ==
-    CASE op = "clonal_mix"  -> {"mix_noerr", "mix_rows", "mix_cn_eq_n", "mix_log2_rescaled", "mix_cn_nonneg_int"}
+    CASE op = "clonal_mix"  -> {"mix_noerr", "mix_cn_eq_n", "mix_log2_rescaled", "mix_cn_nonneg_int"}
       (* the same through `cnvkit.py call` and the written .call.cns; the file keeps 6 significant *)
       (* digits of log2, hence the wider tolerance (1e-5) of cli_log2_rescaled                     *)
-      [] op = "clonal_mix_cli" -> {"cli_noerr", "cli_rows", "cli_cn_eq_n", "cli_log2_rescaled", "cli_cn_nonneg_int"}
-      [] op = "clonal_pure" -> {"pure_noerr", "pure_rows", "pure_nearest", "pure_log2_kept", "pure_cn_nonneg_int"}
-      [] op = "clonal_any"  -> {"any_noerr", "any_rows", "any_cn_nonneg_int"}
+      [] op = "clonal_mix_cli" -> {"cli_noerr", "cli_cn_eq_n", "cli_log2_rescaled", "cli_cn_nonneg_int"}
+      [] op = "clonal_pure" -> {"pure_noerr", "pure_nearest", "pure_cn_nonneg_int"}
+      [] op = "clonal_any"  -> {"any_noerr", "any_cn_nonneg_int"}
       [] op = "threshold"   -> {"thr_noerr", "thr_rows", "thr_cn_step", "thr_nan_neutral", "thr_monotone",
                                 "thr_zero_is_two", "allelic_present", "allelic_sum", "allelic_range",
                                 "allelic_missing"}
@@ -341,27 +357,26 @@ Clauses(op) ==
 
 Holds(c, r) ==
     CASE c \in {"mix_noerr", "cli_noerr", "pure_noerr", "any_noerr", "thr_noerr"} -> NoErr(r)
-      (* "the number of rows never changes" *)
-      [] c \in {"mix_rows", "cli_rows", "pure_rows", "any_rows", "thr_rows"} -> NoErr(r) => (r.nout = r.nin /\ Aligned(r))
+      (* C02 "the number of rows never changes" *)
+      [] c = "thr_rows" -> NoErr(r) => (r.nout = r.nin /\ Aligned(r))
+      (* C01 clauses speak about "every reported copy number" / the cn of "a segment": a result whose  *)
+      (* rows no longer correspond to the input segments fails them (HasRows)                          *)
       (* C01 "every reported copy number is an integer >= 0" *)
       [] c \in {"mix_cn_nonneg_int", "cli_cn_nonneg_int", "pure_cn_nonneg_int", "any_cn_nonneg_int"} ->
-            Aligned(r) => \A k \in Rows(r) : OutAt(r, k).cnint /\ ~Cn(r, k).neg
+            NoErr(r) => (HasRows(r) /\ \A k \in Rows(r) : OutAt(r, k).cnint /\ ~Cn(r, k).neg)
       (* C01 "reports cn = n" *)
-      [] c \in {"mix_cn_eq_n", "cli_cn_eq_n"} -> Aligned(r) => \A k \in Rows(r) : Cn(r, k) = ZInt(RowAt(r, k).n)
+      [] c \in {"mix_cn_eq_n", "cli_cn_eq_n"} ->
+            NoErr(r) => (HasRows(r) /\ \A k \in Rows(r) : Cn(r, k) = ZInt(RowAt(r, k).n))
       (* C01 "for even ploidy, rewrites log2 to the ratio a pure sample with n copies would show *)
       (* against that reference (floored at 0.001 of ploidy)"                                    *)
       [] c \in {"mix_log2_rescaled", "cli_log2_rescaled"} ->
-            (Aligned(r) /\ r.ploidy % 2 = 0) =>
-                \A k \in Rows(r) : NearK(OutAt(r, k).o6, RescaledRatio(RowAt(r, k).n, PRef(r, k), r.ploidy),
+            (NoErr(r) /\ r.ploidy % 2 = 0) =>
+                HasRows(r) /\ \A k \in Rows(r) : NearK(OutAt(r, k).o6, RescaledRatio(RowAt(r, k).n, PRef(r, k), r.ploidy),
                                          IF c = "cli_log2_rescaled" THEN 10 ELSE 1)
       (* C01 "without a purity, cn is the nearest integer to r*2^log2" *)
       [] c = "pure_nearest" ->
-            Aligned(r) => \A k \in Rows(r) :
-                LET q == RowAt(r, k).q IN NearestInt(Cn(r, k), Rat(ZMul(ZInt(PRef(r, k)), ZInt(q.n)), BgNat(q.d)))
-      (* (not in the statement's wording, but implied by "rewrites ... [with] purity": without a *)
-      (* purity the log2 column is left alone)                                                  *)
-      [] c = "pure_log2_kept" ->
-            Aligned(r) => \A k \in Rows(r) : OutAt(r, k).o6 >= 0 => Near6(OutAt(r, k).o6, QRat(RowAt(r, k).q))
+            NoErr(r) => (HasRows(r) /\ \A k \in Rows(r) :
+                LET q == RowAt(r, k).q IN NearestInt(Cn(r, k), Rat(ZMul(ZInt(PRef(r, k)), ZInt(q.n)), BgNat(q.d))))
       (* C02 step function, missing log2 *)
       [] c = "thr_cn_step" ->
             Aligned(r) => \A k \in Rows(r) :
@@ -369,12 +384,12 @@ Holds(c, r) ==
       [] c = "thr_nan_neutral" ->
             Aligned(r) => \A k \in Rows(r) : RowAt(r, k).nan => Cn(r, k) = ZInt(PThrRef(r, k))
       (* C02 "with the default thresholds cn never decreases as log2 increases on any chromosome" *)
-      [] c = "thr_monotone" ->
+      [] c = "thr_monotone" ->       \* contrapositive form (cheap tests first): cn_j > cn_k only if log2_j > log2_k
             (Aligned(r) /\ IsDefaultU(Thr(r))) =>
                 \A j, k \in Rows(r) :
-                    (/\ ~RowAt(r, j).nan /\ ~RowAt(r, k).nan
-                     /\ RowAt(r, j).base = RowAt(r, k).base
-                     /\ PtCmp(RowAt(r, j).q, RowAt(r, k).q) \in {-1, 0}) => ZCmp(Cn(r, j), Cn(r, k)) <= 0
+                    (/\ RowAt(r, j).base = RowAt(r, k).base
+                     /\ ~RowAt(r, j).nan /\ ~RowAt(r, k).nan
+                     /\ ZCmp(Cn(r, j), Cn(r, k)) > 0) => PtCmp(RowAt(r, j).q, RowAt(r, k).q) = 1
       (* C02 "and is 2 at log2 0 on a diploid autosome" *)
       [] c = "thr_zero_is_two" ->
             (Aligned(r) /\ IsDefaultU(Thr(r)) /\ r.ploidy = 2) =>
@@ -382,7 +397,8 @@ Holds(c, r) ==
                     (~RowAt(r, k).nan /\ PClassG(r, k, "none") = "auto" /\ RowAt(r, k).q.t = 0
                      /\ RowAt(r, k).q.n = RowAt(r, k).q.d) => Cn(r, k) = ZInt(2)
       (* C02 allelic split "when b-allele frequencies are supplied" *)
-      [] c = "allelic_present" -> Aligned(r) => \A k \in Rows(r) : OutAt(r, k).has12 = (r.vmode # "none")
+      (* ... there are allelic copy numbers to speak of *)
+      [] c = "allelic_present" -> (Aligned(r) /\ r.vmode # "none") => \A k \in Rows(r) : OutAt(r, k).has12
       [] c = "allelic_sum" ->
             (Aligned(r) /\ r.vmode # "none") => \A k \in Rows(r) :
                 (OutAt(r, k).has12 /\ ~OutAt(r, k).m1 /\ ~OutAt(r, k).m2) =>
@@ -469,8 +485,21 @@ NegativeMixtureRow(r, k) ==
         b == ZMul(ZMul(ZInt(PExp(r, k)), ZInt(r.pd - r.pn)), ZInt(q.d))
     IN /\ q.t = 0 /\ ~RowAt(r, k).nan
        /\ ZCmp(ZMul(ZInt(2), ZSub(a, b)), ZNeg(ZMul(ZInt(r.pn), ZInt(q.d)))) <= 0
-KnownTriggers == {"NegativeMixture"}
+(* F-C02 the "hence" of C02 does not follow where the chromosome has reference copies = ploidy = 1: *)
+(* just below the last default threshold the step function counts 3 thresholds (cn 3), just above   *)
+(* it is ceil(1 * 2^log2) = 2 for log2 in (0.7, 1].  The code follows the definition, so cn drops.   *)
+(* Trigger: a table holds such a pair of rows on one chromosome.                                    *)
+StepDropsAtTop(rc, ploidy) == rc = ploidy /\ ploidy = 1
+HaploidStepDropPair(r, j, k) ==
+    LET a == RowAt(r, j)  b == RowAt(r, k) IN
+    /\ ~a.nan /\ ~b.nan /\ a.base = b.base
+    /\ StepDropsAtTop(PThrRef(r, j), r.ploidy)
+    /\ PtCmp(a.q, DefaultU[3]) = 1 /\ PtCmp(a.q, DefaultU[4]) \in {-1, 0}      \* 0.2 < log2 <= 0.7 : cn 3
+    /\ PtCmp(b.q, DefaultU[4]) = 1 /\ b.q.t = 0 /\ NatRatCmp(b.q.n, b.q.d, 2, 1) <= 0   \* 0.7 < log2 <= 1 : cn 2
+KnownTriggers == {"NegativeMixture", "HaploidStepDrop"}
 TriggerHolds(t, r) ==
     CASE t = "NegativeMixture" -> r.op \in ClonalOps /\ PurityPath(r) /\ \E k \in Rows(r) : NegativeMixtureRow(r, k)
+      [] t = "HaploidStepDrop" -> r.op = "threshold" /\ IsDefaultU(Thr(r)) /\ r.ploidy = 1
+                                    /\ \E j, k \in Rows(r) : HaploidStepDropPair(r, j, k)
       [] OTHER -> FALSE
 =============================================================================
